@@ -404,6 +404,12 @@ def check(run):
         "with two different `jump` hosts; the jump host is not part of the endpoint (serial must not depend on it)",
     ]
 
+    # end-to-end segment: the real jet1090 started with TLC-generated source specifications (string and
+    # TOML forms, references incl. zero coordinates) must serve on /sensors every source with the
+    # reference of its specification (clause s_reference of Pipeline.tla, see _e2e.py)
+    from . import _e2e
+    _e2e.segment(run, 30 if run.tier == "thorough" else 6)
+
 
 def replay(run, path):
     check(run)
